@@ -187,15 +187,44 @@ theorem resume_room (f : Nat) (ip : RecordPos) (mk : Bool) (r r1 : Reader) (br' 
 def mu (inp : List UInt8) (r : Reader) : Nat :=
   (inp.length - r.br.src.cursor) + (if r.br.buf.length < r.br.cap then 0 else 1)
 
+/-- without permission to shift, the buffer is only extended -/
+def Ext (mk : Bool) (r r' : Reader) : Prop := mk = false → ∃ e, r'.br.buf = r.br.buf ++ e
+
+/-- the requests logged by an operation: starting from capacity `c`, every granted request
+`(c, some n)` raises the capacity to `n > c`; a refused request `(c, none)` is the last one;
+the `Bool` tells whether the last request was refused -/
+inductive GrowLog : Nat → List (Nat × Option Nat) → Nat → Bool → Prop
+  | nil (c : Nat) : GrowLog c [] c false
+  | grant (c n : Nat) (rest : List (Nat × Option Nat)) (cf : Nat) (b : Bool) :
+      c < n → GrowLog n rest cf b → GrowLog c ((c, some n) :: rest) cf b
+  | refuse (c : Nat) : GrowLog c [(c, none)] c true
+
+/-- growth bookkeeping of an operation that took the reader from `r` to `r'` with result `res`:
+the log is extended by a well-formed chain of requests, `BufferLimit` is returned iff the last
+request was refused, and (when the buffer may be shifted) every request is made while the
+group being parsed does not fit into the current capacity -/
+def LogOk (inp : List UInt8) (mk : Bool) (r r' : Reader) (res : Res Bool) : Prop :=
+  ∃ new b, r'.log = r.log ++ new ∧ GrowLog r.br.cap new r'.br.cap b ∧
+    (res = .err .bufferLimit ↔ b = true) ∧
+    (mk = true → ∀ c a, (c, a) ∈ new → ¬ Fits (inp.drop r.byte) c)
+
+theorem LogOk.same {inp mk r r' res} (hl : r'.log = r.log) (hc : r'.br.cap = r.br.cap)
+    (hr : res ≠ .err .bufferLimit) : LogOk inp mk r r' res :=
+  ⟨[], false, by simp [hl], by rw [hc]; exact GrowLog.nil _,
+    ⟨fun h => absurd h hr, fun h => by cases h⟩, fun _ c a h => by cases h⟩
+
 /-- after the refill: either the record is complete and `validate` decides, or the loop goes on -/
 theorem resumeK_spec (inp : List UInt8) (G : Prop) (f : Nat) (ip : RecordPos) (mk : Bool)
     (r : Reader)
     (ih : ∀ (r : Reader) (ip : RecordPos), Base inp G r → Eof inp r →
       Scan r.br.buf r.bp ip → mu inp r + 1 ≤ f →
-      Found inp G r.state (itemsAt inp r.byte r.line) (resume f ip mk r))
+      Found inp G r.state (itemsAt inp r.byte r.line) (resume f ip mk r) ∧
+        Ext mk r (resume f ip mk r).1 ∧ LogOk inp mk r (resume f ip mk r).1 (resume f ip mk r).2)
     (hb : Base inp G r) (he : Eof inp r)
     (hpre : Pre r.br.buf r.bp ip) (hmu : mu inp r + 1 ≤ f) :
-    Found inp G r.state (itemsAt inp r.byte r.line) (resumeK f ip mk r) := by
+    Found inp G r.state (itemsAt inp r.byte r.line) (resumeK f ip mk r) ∧
+      Ext mk r (resumeK f ip mk r).1 ∧
+      LogOk inp mk r (resumeK f ip mk r).1 (resumeK f ip mk r).2 := by
   rcases si_spec r ip hb.pos0_le hpre with ⟨bp', ip', hp0, hsc, hres⟩ | ⟨bp', hp0, hf4, hres⟩
   · simp only [resumeK, hres]
     exact ih { r with bp := bp', incompletePos := some ip' } ip' (hb.set_bp bp' _ hp0) he hsc hmu
@@ -205,15 +234,22 @@ theorem resumeK_spec (inp : List UInt8) (G : Prop) (f : Nat) (ip : RecordPos) (m
       generalize validate _ = v
       rcases v with ⟨r', (_ | _ | _ | _)⟩ <;> rfl
     rw [this]
-    exact complete_found inp G { r with bp := bp', incompletePos := none }
-      (hb.set_bp bp' _ hp0) he rfl hf4
+    refine ⟨complete_found inp G { r with bp := bp', incompletePos := none }
+      (hb.set_bp bp' _ hp0) he rfl hf4, fun _ => ⟨[], ?_⟩, ?_⟩
+    · rw [validated_br, List.append_nil]
+    · rcases complete_found2 inp G { r with bp := bp', incompletePos := none }
+        (hb.set_bp bp' _ hp0) he rfl hf4 with ⟨x, its', -, hv, -⟩ | ⟨e, b, l, -, hv⟩
+      · rw [hv]; exact LogOk.same rfl rfl (by intro h; cases h)
+      · rw [hv]; exact LogOk.same rfl rfl (by cases e <;> (intro h; cases h))
 
 /-- the loop of `resume_incomplete_search` finds S's next item (`mk` = may the buffer be
 shifted) -/
 theorem resume_spec (inp : List UInt8) (G : Prop) (mk : Bool) (f : Nat) :
     ∀ (r : Reader) (ip : RecordPos), Base inp G r → Eof inp r →
       Scan r.br.buf r.bp ip → mu inp r + 1 ≤ f →
-      Found inp G r.state (itemsAt inp r.byte r.line) (resume f ip mk r) := by
+      Found inp G r.state (itemsAt inp r.byte r.line) (resume f ip mk r) ∧
+        Ext mk r (resume f ip mk r).1 ∧
+        LogOk inp mk r (resume f ip mk r).1 (resume f ip mk r).2 := by
   induction f with
   | zero => intro r ip _ _ _ h; omega
   | succ f ih =>
@@ -223,6 +259,8 @@ theorem resume_spec (inp : List UInt8) (G : Prop) (mk : Bool) (f : Nat) :
       rw [resume_eof f ip mk r hlt]
       have hcur := he hlt
       have hb' : Base inp G { r with state := .finished } := hb.set_state _
+      refine ⟨?_, fun _ => ⟨[], by rw [checkEnd_br, List.append_nil]⟩,
+        LogOk.same (checkEnd_log _ ip).1 (by rw [checkEnd_br]) (checkEnd_log _ ip).2⟩
       by_cases hq : ip = .qual
       · subst hq
         exact eofq_found inp G r.state { r with state := .finished } hb' he hcur rfl hsc
@@ -257,9 +295,42 @@ theorem resume_spec (inp : List UInt8) (G : Prop) (mk : Bool) (f : Nat) :
             (by
               simp only [mu, hcur, hcap, hbuf, List.length_append, e1, e6, e7] at hext ⊢
               split <;> omega)
-          simpa only [e3, e4, e5] using this
+          obtain ⟨hfound, hext, new, b, hl1, hl2, hl3, hl4⟩ := this
+          have hunfit : mk = true → ¬ Fits (inp.drop r.byte) r.br.cap := by
+            intro hmk
+            rw [hmk] at hp
+            have h0 : r.bp.pos0 = 0 := by simpa using hp
+            have := scan_unfit (rest := inp.drop r.br.src.cursor) hsc h0
+            rw [hb.win, h0, List.drop_zero, ← hfull]
+            exact this
+          have e8 : r1.log = r.log ++ [(r.br.cap, some n)] := by subst hr1; rfl
+          refine ⟨by simpa only [e3, e4, e5] using hfound, fun hmk => ?_,
+            (r.br.cap, some n) :: new, b, ?_, ?_, hl3, ?_⟩
+          · obtain ⟨e, he⟩ := hext hmk
+            exact ⟨ext ++ e, by rw [he]; simp only [hbuf, e1, List.append_assoc]⟩
+          · rw [hl1]; simp only [e8, List.append_assoc, List.singleton_append]
+          · refine GrowLog.grant _ _ _ _ _ hn ?_
+            simpa only [hcap, e6] using hl2
+          · intro hmk c a hmem
+            simp only [List.mem_cons, Prod.mk.injEq] at hmem
+            rcases hmem with ⟨h1, -⟩ | hmem
+            · rw [h1]; exact hunfit hmk
+            · have := hl4 hmk c a hmem
+              simpa only [e3] using this
         · rw [resume_refused f ip mk r _ _ hlt hp hg]
-          refine Or.inr (Or.inr (Or.inr ⟨rfl, ?_, rfl, ?_, he⟩))
+          have hunfit : mk = true → ¬ Fits (inp.drop r.byte) r.br.cap := by
+            intro hmk
+            rw [hmk] at hp
+            have h0 : r.bp.pos0 = 0 := by simpa using hp
+            have := scan_unfit (rest := inp.drop r.br.src.cursor) hsc h0
+            rw [hb.win, h0, List.drop_zero, ← hfull]
+            exact this
+          refine ⟨Or.inr (Or.inr (Or.inr ⟨rfl, ?_, rfl, ?_, he⟩)), fun _ => ⟨[], by simp [growNo]⟩,
+            [(r.br.cap, none)], true, rfl, GrowLog.refuse _, ⟨fun _ => rfl, fun _ => rfl⟩, ?_⟩
+          rotate_left 2
+          · intro hmk c a hmem
+            simp only [List.mem_singleton, Prod.mk.injEq] at hmem
+            rw [hmem.1]; exact hunfit hmk
           · intro hG
             obtain ⟨n, hn, -⟩ := hw.polg hG r.pol.hist r.br.cap (by have := hb.cap3; omega)
             rw [hn] at hans
@@ -303,6 +374,14 @@ theorem resume_spec (inp : List UInt8) (G : Prop) (mk : Bool) (f : Nat) :
             simp only [mu, hcur, hcap, hbuf, List.length_append, e1, e6, e7,
               List.length_drop] at hext ⊢
             split <;> omega)
-        simpa only [e3, e4, e5] using this
+        obtain ⟨hfound, -, new, b, hl1, hl2, hl3, hl4⟩ := this
+        have e8 : r1.log = r.log := by subst hr1; rfl
+        refine ⟨by simpa only [e3, e4, e5] using hfound, fun hmk => ?_, new, b,
+          by rw [hl1, e8], by simpa only [hcap, e6] using hl2, hl3, ?_⟩
+        · rw [hmk] at hp
+          simp at hp
+        · intro hmk c a hmem
+          have := hl4 hmk c a hmem
+          simpa only [e3] using this
 
 end SeqIo.Fastq
